@@ -287,3 +287,57 @@ def gen_inputs(E, facts, rng, cap, flip_limit=6):
     res = must[:cap]
     res += more[: max(0, cap - len(res))]
     return res
+
+
+# --------------------------------------------------------------------------- names corpus (C02, C03)
+NAME_LITS = ["b", "bl", "blu", "blue", "bluer", "x", "Light Blue", "é", "éé", "zzzzzzzz", "Q", "q1", "ALLCAPS", "mi-xed_Case",
+             "", "ß", "with space ", "1", "a.b", "tab\there", "quote\"d", "uni\u212a", "semi;", "🦀", "long_long_long_long"]
+PREFIXES = [None, None, None, "", "pre_", "P", "é-", "ns::", " "]
+
+
+def names_def(rng, did, allow_prefix=True, styles=None, fieldless=False, nmax=6):
+    n = rng.choice([1, 2, 3, 3, 4, 5, 6][:nmax + 1])
+    generics = "none" if fieldless else rng.choice(["none", "none", "none", "ty", "const", "tywhere"])
+    idents = rng.sample(IDENTS, n)
+    vs = []
+    for ident in idents:
+        kind = "unit" if fieldless else rng.choice(["unit", "unit", "tuple", "named"])
+        nf = 0 if kind == "unit" else rng.choice([1, 2, 3])
+        fields = rand_fields(rng, kind, nf, generics)
+        mode = rng.choice(["none", "none", "ts", "ser", "ser", "ser", "both"])
+        ser, ts = [], None
+        if mode in ("ser", "both"):
+            k = rng.choice([1, 2, 3, 3])
+            ser = rng.sample(NAME_LITS, k)       # any order: "last" vs "longest" differ
+        if mode in ("ts", "both"):
+            ts = rng.choice(NAME_LITS)
+        v = variant(ident, kind, fields, ser=ser, ts=ts, dis=rng.random() < 0.1, aci=rng.choice([2, 2, 1, 0]))
+        r = rng.random()
+        if not fieldless and r < 0.07:
+            v = default_variant(rng, ident)
+        elif not fieldless and r < 0.14:
+            ty = "sstr"      # AsRefStr / IntoStaticStr need AsRef<str> / Into<&'static str> of the inner value
+            named = rng.random() < 0.4
+            v = variant(ident, "named" if named else "tuple", [field(ty, rng.choice(FIELD_NAMES) if named else "")], transp=True)
+        vs.append(v)
+    E = enum(did, vs, style=rng.choice(styles or (["none"] * 5 + STYLES + ALIASES)),
+             prefix=rng.choice(PREFIXES) if allow_prefix else None, aci=rng.random() < 0.2,
+             cis=rng.random() < 0.4, generics=generics, split=rng.randrange(2))
+    return ensure_generic_use(rng, E)
+
+
+def names_exhaustive(start_id):
+    """one variant x every ser order of 1..3 literals of distinct lengths x to_string x prefix x style x kind"""
+    out, did = [], start_id
+    lits = ["a", "bcd", "ef"]
+    orders = [p for k in (1, 2, 3) for p in itertools.permutations(lits, k)]
+    for ser in [()] + orders:
+        for ts in (None, "T", "tttt"):
+            for prefix in (None, "", "p/", "é"):
+                for kind in ("unit", "tuple", "named"):
+                    fs = [] if kind == "unit" else [field("u8", "val" if kind == "named" else ""), field("String", "s" if kind == "named" else "")]
+                    style = ["none", "snake_case", "UPPERCASE", "Train-Case"][did % 4]
+                    out.append(enum(did, [variant("HTTPServer", kind, fs, ser=list(ser), ts=ts), variant("Other")],
+                                    style=style, prefix=prefix, cis=bool(did % 2)))
+                    did += 1
+    return out
